@@ -271,6 +271,18 @@ class Events(Monitor):
         spiked = any(fr["fault"]["kind"] == "spike" for fr in world.fired)
         k = world.system.constants.get("k", 1.0)
         exact_ok = world.problem.has_exact and not spiked
+        if "C09" in self.props and snap["exc"] is None and i > 0:
+            # "a later call continues from the event point": a call that starts on the terminal stop of the previous call - whatever it
+            # monitors, the same terminal event included - has to move on (to its target or to a LATER terminal crossing)
+            prev = world.snaps[i - 1]
+            prev_stop = (prev["kind"] == "integrate" and prev["exc"] is None and "terminated upon finding" in prev["status"] and prev["n"] >= 1
+                         and prev["events"] and abs(_f(prev["events"][-1][0]) - _f(prev["t"][-1])) <= 4 * eps * max(1.0, abs(_f(prev["t"][-1]))))
+            far = np.isfinite(self.target) and abs(self.target - self.start_t) > 1e-6 * max(1.0, abs(self.start_t)) or not np.isfinite(self.target)
+            if prev_stop and far:
+                world.probe("continued_from_terminal_stop")
+                if snap["n"] == pre["n"]:
+                    world.violate("C09", "C09.continues_after_stop", "call %d starts on the terminal stop at t=%r and was asked to go to %r, but recorded no step (status: %s)"
+                                  % (i, self.start_t, self.target, snap["status"][:60]))
         # the run's own global error (against the closed form), used to scale the analytic bounds
         E = None
         if exact_ok and snap["n"] >= 2:
